@@ -166,7 +166,16 @@ def apply_lib(kind, pdu, step):
         pdu.segment_metadata = None if v is None else X.SegmentMetadata(X.RecordContinuationState(v[0]), bytes.fromhex(v[1]))
 
 
-def check_state(ctx, label, kind, obj, fresh_fn, case, hdr_len, feat):
+def model_octets(kind, cfg, p):
+    q = copy.deepcopy(p)
+    if kind == "finished" and q.get("cond") in C.NO_FAULT_LOC_CONDS:
+        q["fault_id"] = None
+    if kind == "finished":
+        q["responses"] = q.get("responses") or []
+    return C.ref_octets(kind, cfg, q)
+
+
+def check_state(ctx, label, kind, obj, fresh_fn, case, hdr_len, feat, model_fn=None):
     """All per-step checks on a deep copy (packing fills caches the property is about)."""
     snap = copy.deepcopy(obj)
     probe = copy.deepcopy(obj)
@@ -184,6 +193,11 @@ def check_state(ctx, label, kind, obj, fresh_fn, case, hdr_len, feat):
     good &= ctx.check("history.length_field", declared == len(raw) - hdr_len(raw), "length_field_wrong", f"{feat}/{label}", case,
                       field=declared, octets_after_header=len(raw) - hdr_len(raw))
     good &= ctx.check("history.fresh_object", raw == want, "octets_differ_from_fresh_object", f"{feat}/{label}", case, observed=raw[:100], expected=want[:100])
+    if model_fn is not None:
+        # the format itself (reference encoder): a fault location is left out of a Finished PDU for "no error" / "unsupported checksum type"
+        okm, ref = attempt(model_fn)
+        if okm:
+            good &= ctx.check("history.format", raw == ref, "octets_differ_from_reference_encoding", f"{feat}/{label}", case, observed=raw[:100], expected=ref[:100])
     ok2, raw2 = attempt(probe.pack)
     good &= ctx.check("history.pack_repeatable", ok2 and bytes(raw2) == raw, "second_pack_differs", f"{feat}/{label}", case)
     oke, eq = attempt(lambda: (probe == snap) and (snap == probe))
@@ -226,7 +240,9 @@ def k_pdu_history(ctx, kind, cfg, p, steps, start="constructed", conf_dir=None):
         if not ctx.check("history.construct", ok, "decode_raised", f"{kind}/" + (exc_sig(pdu) if not ok else ""), case, error=repr(pdu)):
             return
     cur_cfg, cur_p = dict(cfg), copy.deepcopy(p)
-    if not check_state(ctx, "after_construct" if start == "constructed" else "after_unpack", kind, pdu, lambda: C.build(kind, cur_cfg, cur_p), case, hl, feat):
+    mkinds = ("finished", "metadata", "nak", "keep_alive", "file_data", "ack", "prompt")          # EOF: the library packs a fault location whatever the code (caller's choice)
+    if not check_state(ctx, "after_construct" if start == "constructed" else "after_unpack", kind, pdu, lambda: C.build(kind, cur_cfg, cur_p), case, hl, feat,
+                       (lambda: model_octets(kind, cur_cfg, cur_p)) if kind in mkinds else None):
         return
     for i, step in enumerate(steps):
         ok, err = attempt(apply_lib, kind, pdu, step)
@@ -235,7 +251,8 @@ def k_pdu_history(ctx, kind, cfg, p, steps, start="constructed", conf_dir=None):
         cur_cfg, cur_p = apply_model(kind, cur_cfg, cur_p, step)
         ctx.table("setter_cells", f"{kind}.{step[0]}/crc={cfg['crc']}/{start}")
         c2, p2 = dict(cur_cfg), copy.deepcopy(cur_p)
-        if not check_state(ctx, f"after:{step[0]}", kind, pdu, lambda: C.build(kind, c2, p2), dict(case, failing_step=i), hl, feat):
+        if not check_state(ctx, f"after:{step[0]}", kind, pdu, lambda: C.build(kind, c2, p2), dict(case, failing_step=i), hl, feat,
+                           (lambda: model_octets(kind, c2, p2)) if kind in mkinds else None):
             return
     if sib is not None and steps:
         # the untouched sibling (empty setter history) must still be coherent and equal to a fresh object with the original values
